@@ -28,7 +28,10 @@ TRUSTED_BASE = BASE_TRUSTED + [
 RULE = ('kernels: index pairs in [1,4], aoi in [0,pi/2) incl. total internal reflection, both reflect flags, angles/retardances '
         'in [-2pi,2pi], unit and non-unit normals; model: random unit k0,k1 incl. parallel/antiparallel/axial/degenerate, '
         'random complex P and J, six named states and random (Ex,Ey,phase); traces: generated lenses (1-5 surfaces, '
-        'conics, mirrors, tilted, Fresnel-coated) recorded per surface; non-trivial = finite ray with >= 1 surface')
+        'conics, mirrors, tilted, Fresnel-coated, index-matched; plus layouts whose first bending surface is a mirror: fold / concave mirror first, '
+        'mirror then Fresnel plate / lens, oblique and skew fields) recorded per surface and compared with an independent reference '
+        '(launch basis from the direction copied at launch, own s-p-k frames, textbook Fresnel) for H, V, +-45, RCP, LCP, the stated '
+        'random state and unpolarized light; non-trivial = finite ray with >= 1 surface')
 PARTIAL = [
     'diattenuator: only the diagonal is proved to agree with R(theta) diag(t_max,t_min) R(-theta); the off-diagonal is refuted '
     '(Findings/F_C17.v, finding diattenuator-offdiag)',
@@ -185,6 +188,33 @@ def classify(t):
         if not t['Edotk'] <= INT_TOL:
             # a near-parallel frame also destroys transversality; a broken chain alone (tilt) only does the latter
             out.append(dict(base, cause=cause_t, clause='field-transverse', observed=t['Edotk'], expected=0.0))
+    # ---- against the independent reference (own launch basis from the direction copied at launch, own s-p-k frames,
+    #      textbook Fresnel): the STATED state, not whatever the rays object remembers ----
+    ill = bool(t.get('_ill'))
+    if t.get('ref_launch_dir_err') is not None and not t['ref_launch_dir_err'] <= 1e-9:
+        out.append(dict(base, cause='unknown', clause='launch-direction', observed=t['klaunch'], error=t['ref_launch_dir_err']))
+    if t.get('ref_launch_field_err') is not None and not t['ref_launch_field_err'] <= INT_TOL:
+        out.append(dict(base, cause='unknown', clause='launch-field', observed=t['ref_launch_field_err'], expected=0.0,
+                        launch_requested=t['klaunch'], launch_stored_on_rays=t['klaunch_stored'], layout=t.get('layout')))
+    if t.get('ref_int_implP'):
+        for nm, v in t['ref_int_implP'].items():
+            ob = t['impl_int'][nm]
+            ex = v * (t['i0'] if nm == 'unpolarized' else 1.0)
+            if not abs(ob - ex) <= INT_TOL * (1 + abs(ex)):
+                out.append(dict(base, cause='unknown', clause='stated-state-intensity', state=nm, observed=ob, expected=ex,
+                                layout=t.get('layout'), Hx=t.get('Hx'), Hy=t.get('Hy')))
+                break
+    if t.get('ref_int') and not ill:
+        for nm, v in t['ref_int'].items():
+            ob = t['impl_int'][nm]
+            ex = v * (t['i0'] if nm == 'unpolarized' else 1.0)
+            if not abs(ob - ex) <= 1e-8 * (1 + abs(ex)):
+                out.append(dict(base, cause=cause, clause='independent-fresnel-intensity', state=nm, observed=ob, expected=ex,
+                                layout=t.get('layout'), Hx=t.get('Hx'), Hy=t.get('Hy')))
+                break
+    if t.get('ref_Edotk_surf') and not max(t['ref_Edotk_surf']) <= INT_TOL:
+        out.append(dict(base, cause=cause_t, clause='field-transverse', at_surface=t['ref_Edotk_surf'].index(max(t['ref_Edotk_surf'])) + 1,
+                        observed=max(t['ref_Edotk_surf']), expected=0.0))
     for a, b in (('H', 'V'), ('L+45', 'L-45'), ('RCP', 'LCP'), ('r1', 'r2'), ('c1', 'c2')):
         mean = t['i0'] * (t['ints'][a] + t['ints'][b]) / 2
         if not abs(t['iunpol'] - mean) <= INT_TOL * (1 + abs(mean)):
@@ -196,7 +226,7 @@ def classify(t):
 def system_checks(ctx):
     nu = ctx.n(24, 160)
     data = impl({'seed': ctx.seed, 'what': ['update', 'field', 'traces', 'oracles'], 'n_unit': nu,
-                 'n_lens': ctx.n(14, 120), 'n_oracle': ctx.n(120, 1500)})
+                 'n_lens': ctx.n(14, 120), 'n_mirror': ctx.n(8, 48), 'n_oracle': ctx.n(120, 1500)})
     tol = fh(1e-11)
 
     # ---- PolarizedRays.update against pol_update ----
@@ -280,6 +310,10 @@ def system_checks(ctx):
             continue
         hist['coated' if t['coated'] else 'uncoated'] += 1
         hist['tilted'] += 1 if t['tilted'] else 0
+        lay = 'layout:' + t.get('layout', 'generic')
+        hist[lay] = hist.get(lay, 0) + 1
+        if t.get('ref_int'):
+            hist['independent reference compared'] = hist.get('independent reference compared', 0) + 1
         if t.get('matched'):
             hist['index-matched surface'] = hist.get('index-matched surface', 0) + 1
         if t['_near_par']:
@@ -337,7 +371,7 @@ def system_checks(ctx):
 def search(ctx, broken, disagreements):
     """the property stated directly on the implementation: Jones-class oracles + recorded traces, larger sweep"""
     data = impl({'seed': ctx.seed + 77, 'what': ['traces', 'oracles'], 'n_unit': 0,
-                 'n_lens': ctx.n(30, 300), 'n_oracle': ctx.n(400, 4000)})
+                 'n_lens': ctx.n(30, 300), 'n_mirror': ctx.n(16, 96), 'n_oracle': ctx.n(400, 4000)})
     wit = []
     seen = set()
     for f in data['oracles']['fails']:
